@@ -1,7 +1,11 @@
 """C02 — Stage outcome does not depend on the ordering of notifications.
 
 Implementation under test: the real Controller.initialise() / Controller.run() / ComponentState / StageState of
-/repo under the deterministic runtime of harness/detsim.py.  Per case one (workflow of 1-3 stages, exit script per
+/repo under the deterministic runtime of harness/detsim.py: notifications go through the Controller's real RxPY
+pipelines (observe_on(controllerPool) / filter(finishCalled is False), in the order the code composes them; the pool
+is a queue drained by the harness), and in about a third of the groups the components run the REAL Engine
+(run / LaunchTask / HandleTaskExit / restart / kill / shutdown / exitReason) with a scripted task generator whose
+launches may also raise (SubmissionFailed by OSError / JobLaunchError, UnknownIssue by another exception).  Per case one (workflow of 1-3 stages, exit script per
 task execution) is run through the whole stage loop (run() per stage, initialise() of the next stage, elaunch's
 continue-on-error rule) under several random schedules (different delivery biases); no kill is injected.
 Oracle (model independent, harness/ctrl_sim.py: expected_states / own_outcome restate the documented rules):
@@ -34,7 +38,8 @@ RULE = ("case = (FlowIR template of 2-8 components over 1-3 stages - random, or 
         "producer with an aggregating consumer in the same or a later stage / shutdown chain across stages / observer "
         "with several subjects - with at most one replicated chain, aggregators (also without replicated inputs), "
         "repeating observers, random shutdownOn/restartHookOn/maxRestarts, continue-on-error on some stages; exit "
-        "script per component; K schedules (quick 5, thorough 10) each run through the whole stage loop: "
+        "script per component - also restarts followed by failing re-submissions, with real engines by a task generator "
+        "that raises -; stand-in or real engines; K schedules (quick 5, thorough 10) each run through the whole stage loop: "
         "Controller.run() per stage, initialise() of the next one).  Non-trivial = >= 3 components after "
         "replication, >= 2 distinct op sequences among the K schedules and at least one component ends shut-down or "
         "failed or was restarted (the rules beyond 'success gives finished' are exercised).  Distinct by canonical "
